@@ -32,24 +32,32 @@ type core struct {
 	Name     string
 	Src      string // statements
 	Blocked  bool
-	MaxDepth int // 0: every nesting depth; n: only under at most n wrappers
+	MaxDepth int  // 0: every nesting depth; n: only under at most n wrappers
+	Go       bool // the core starts a goroutine of its own
 }
 
 var cores = []core{
-	{"loop-nocond", "var n = 0\nfor { n = n + 1; if n > %N { break }; s(1) }", false, 0},
-	{"loop-cond", "var n = 0\nfor n < %N { n = n + 1; s(1) }", false, 0},
-	{"loop-cstyle", "for i = 0; i < %N; i++ { s(1) }", false, 0},
-	{"loop-slice", "for x in long { s(1) }", false, 0},
-	{"loop-map", "for k, v in longmap { s(1) }", false, 0},
-	{"recursion", "func rec(i) { if i > %N { return 0 }; s(1); return rec(i + 1) }\nrec(0)", false, 0},
-	{"func-body-loops", "func spin() { for i = 0; i < %N; i++ { s(1) } }\nspin()", false, 0},
-	{"blocked-recv", "<-never", true, 0},
-	{"blocked-send", "never <- 1", true, 0},
-	{"blocked-range", "for x in never { s(1) }", true, 0},
-	{"blocked-recv2", "v, ok = <-never", true, 0},
+	{"loop-nocond", "var n = 0\nfor { n = n + 1; if n > %N { break }; s(1) }", false, 0, false},
+	{"loop-cond", "var n = 0\nfor n < %N { n = n + 1; s(1) }", false, 0, false},
+	{"loop-cstyle", "for i = 0; i < %N; i++ { s(1) }", false, 0, false},
+	{"loop-slice", "for x in long { s(1) }", false, 0, false},
+	{"loop-map", "for k, v in longmap { s(1) }", false, 0, false},
+	{"recursion", "func rec(i) { if i > %N { return 0 }; s(1); return rec(i + 1) }\nrec(0)", false, 0, false},
+	{"func-body-loops", "func spin() { for i = 0; i < %N; i++ { s(1) } }\nspin()", false, 0, false},
+	{"blocked-recv", "<-never", true, 0, false},
+	{"blocked-send", "never <- 1", true, 0, false},
+	{"blocked-range", "for x in never { s(1) }", true, 0, false},
+	{"blocked-recv2", "v, ok = <-never", true, 0, false},
 	// forwarding form dst <- src: the receive half succeeds, the send half can never complete
-	{"blocked-forward", "rdy = make(chan int64, 1)\nrdy <- 1\nnever <- rdy", true, 0},
-	{"blocked-forward2", "rdy = make(chan int64, 1)\nrdy <- 1\nnever <- <-rdy", true, 0},
+	{"blocked-forward", "rdy = make(chan int64, 1)\nrdy <- 1\nnever <- rdy", true, 0, false},
+	{"blocked-forward2", "rdy = make(chan int64, 1)\nrdy <- 1\nnever <- <-rdy", true, 0, false},
+	// a buffered channel with two values waiting and MORE THAN ONE taker: whatever a
+	// range loop believes about the buffer when it starts is out of date when its
+	// body (or another goroutine) has taken a value; the loop ends up waiting on the
+	// empty channel and that wait must see the cancellation
+	{"range-body-takes", "sh = make(chan int64, 2)\nsh <- 1\nsh <- 2\nfor x in sh { y = <-sh; s(1) }", true, 0, false},
+	{"range-two-takers", "sh = make(chan int64, 2)\nsh <- 1\nsh <- 2\ngo func() { for y in sh { s(2) } }()\nfor x in sh { s(1) }", true, 2, true},
+	{"recv-two-takers", "sh = make(chan int64, 2)\nsh <- 1\nsh <- 2\ngo func() { <-sh; s(2); <-sh }()\n<-sh\ns(1)\n<-sh\n<-sh", true, 2, true},
 }
 
 type wrapper struct {
@@ -120,6 +128,15 @@ var wrappers = []wrapper{
 	{"deferred-before-host", func(b string, id int) string {
 		return fmt.Sprintf("func g%d() {\n\tdefer h2(1, 2)\n\tdefer func() {\n\t\t", id) + indent(indent(b)) + fmt.Sprintf("\n\t}()\n\ts(93)\n}\ng%d()", id)
 	}, false, nil, true},
+	// the invocation that defers the script function ends with an explicit return
+	// (the pending "return" must not hide what the deferred call ends with), as a
+	// function and as the top level of the program
+	{"deferred-return", func(b string, id int) string {
+		return fmt.Sprintf("func g%d() {\n\tdefer func() {\n\t\t", id) + indent(indent(b)) + fmt.Sprintf("\n\t}()\n\ts(93)\n\treturn 1\n}\ng%d()", id)
+	}, false, nil, true},
+	{"toplevel-deferred-return", func(b string, id int) string {
+		return "defer func() {\n\t" + indent(b) + "\n}()\ns(93)\nreturn 1"
+	}, false, nil, true},
 	libWrapper("lib0", "", ""),
 	libWrapper("lib1", "a", "1"),
 	libWrapper("lib2", "a, b", "1, 2"),
@@ -176,7 +193,7 @@ func programs(thorough bool) []program {
 				}
 				body := strings.ReplaceAll(c.Src, "%N", fmt.Sprint(spinN))
 				names := []string{}
-				hasGo := false
+				hasGo := c.Go
 				pre := ""
 				for i := len(path) - 1; i >= 0; i-- {
 					w := wrappers[path[i]]
